@@ -38,6 +38,10 @@ func TestVerifFlags(t *testing.T) {
 			alpha += ":"
 		case 1:
 			alpha += "/ !+:=<>"
+		case 2:
+			alpha += "\n\n/" // line breaks: the expressions are anchored to the whole value, not to a line
+		case 3:
+			return []string{"abc\n", "\nabc", "x/databases/y\n", "abc\n/instances/other", "\n", "a\r\nb", "a\tb", "a\x00b", "é"}[rng.Intn(9)]
 		}
 		b := []byte{}
 		for i := rng.Intn(8); i > 0; i-- {
